@@ -9,6 +9,7 @@ CONSTANTS
   Deliveries <- TDeliveries
   Payloads <- TPayloads
   Keys <- TKeys
+  Deviations = {"its_minter_revoked", "its_hub_address_unchecked"}
 INIT Init
 NEXT Next
 CHECK_DEADLOCK FALSE
